@@ -2,6 +2,7 @@ package main
 
 import (
 	"fmt"
+	"os"
 	"go/ast"
 	"go/token"
 	"go/types"
@@ -279,6 +280,23 @@ func verifyFunc(p *Program, cx *Contracts, cfg *PropConfig, ct *Contract) *FuncR
 		return res
 	}
 	nReturn := 0
+	if os.Getenv("VERIF_DEBUG") != "" {
+		hist := map[string]int{}
+		for _, o := range outs {
+			hist[strings.Join(o.st.trace, ">")]++
+		}
+		if os.Getenv("VERIF_DEBUG") == "2" {
+			for _, o := range outs {
+				fmt.Fprintf(os.Stderr, "PATH %s\n", strings.Join(o.st.trace, ">"))
+				for _, p := range o.st.pc {
+					fmt.Fprintf(os.Stderr, "   %s\n", trunc(p, 150))
+				}
+			}
+		}
+		for k, v := range hist {
+			fmt.Fprintf(os.Stderr, "DEBUG %s: %d paths via %s\n", e.curName, v, k)
+		}
+	}
 	for _, o := range outs {
 		if o.st.dead {
 			continue
